@@ -1,13 +1,23 @@
-"""Harness build targets (all built from /repo's current working tree)."""
+"""Harness build targets (all built from /repo's current working tree).
+Each family registers its targets in tools/targets_<family>.py as
+    TARGETS = {"h_name": lambda: build("h_name", [repo srcs], "asan", harness_srcs=[...], libs=[...])}
+"""
+import glob, importlib, os, sys
 from vlib import build, LIBMP_SRCS, NLW2_SRCS
 
 DRV_SRCS = ["drv/main.cc", "drv/scripted_backend.cc", "drv/scripted_modelapi_connect.cc", "drv/model_mgr_std_pb.cc"]
 
-def get(name):
-    if name == "h_safeint":
-        return build("h_safeint", [], "asan", harness_srcs=["h_safeint.cc"])
-    if name == "h_drv":
-        return build("h_drv", LIBMP_SRCS, "plain", harness_srcs=DRV_SRCS)
-    raise KeyError(name)
+TARGETS = {
+    "h_safeint": lambda: build("h_safeint", [], "asan", harness_srcs=["h_safeint.cc"]),
+    "h_drv": lambda: build("h_drv", LIBMP_SRCS, "plain", harness_srcs=DRV_SRCS),
+}
 
-ALL = ["h_safeint", "h_drv"]
+_here = os.path.dirname(os.path.abspath(__file__))
+for _f in sorted(glob.glob(os.path.join(_here, "targets_*.py"))):
+    _m = importlib.import_module(os.path.basename(_f)[:-3])
+    TARGETS.update(_m.TARGETS)
+
+def get(name):
+    return TARGETS[name]()
+
+ALL = sorted(TARGETS)
